@@ -45,7 +45,9 @@
 (*                                                                         *)
 (*   hosts = sequence of [host, cores]; Assign(hosts, n) = sequence of      *)
 (*   [host, workers] with workers a sequence (one per core) of sequences of *)
-(*   client ids.                                                            *)
+(*   client ids.  StartPlan(a) = the workers Driver.start_benchmark creates *)
+(*   and the clients whose allocation rows each StartWorker message carries *)
+(*   (see the section at the end).                                          *)
 (***************************************************************************)
 EXTENDS Integers, Sequences, FiniteSets
 
@@ -282,4 +284,65 @@ AssignHolds(c, hosts, n, a) ==
 AssignFailing(hosts, n, a) ==
     IF ~HostsKept(hosts, a) THEN {"HostsKept"}
     ELSE {c \in AssignClauses : ~AssignHolds(c, hosts, n, a)}
+
+-----------------------------------------------------------------------------
+(***************************************************************************)
+(* Driver.start_benchmark: what is actually handed to the worker processes. *)
+(* For every NON-EMPTY entry of the assignment one worker is created on     *)
+(* that host (driver_actor.create_client(host, cfg, worker_id), worker ids  *)
+(* 0, 1, ... in creation order) and started with a ClientAllocations object *)
+(* holding the allocation rows of exactly its clients                       *)
+(* (driver_actor.start_worker -> StartWorker message).                      *)
+(*   plan entry / StartWorker = [wid, host, clients]                        *)
+(* Recorded from the implementation (at the time of the call, as the actor  *)
+(* system serialises the message when it is sent):                          *)
+(*   created = sequence of [wid, host]             (create_client calls)    *)
+(*   sent    = sequence of [wid, host, rows, rowok, ctx] (start_worker      *)
+(*             calls): rows = client ids of the allocation rows in the      *)
+(*             message, rowok = every such row is that client's row of the  *)
+(*             allocation matrix, ctx = client ids of the client contexts,  *)
+(*             host = host of the created worker the message goes to.       *)
+(***************************************************************************)
+AllWorkers(a) ==
+    LET F[h \in 0..Len(a)] ==
+            IF h = 0 THEN <<>>
+            ELSE F[h-1] \o AsSeq([w \in 1..Len(a[h].workers) |-> [host |-> a[h].host, clients |-> a[h].workers[w]]])
+    IN F[Len(a)]
+NonEmptyWorkers(a) == SelectSeq(AllWorkers(a), LAMBDA x : x.clients # <<>>)   \* `if len(clients) > 0:`
+StartPlan(a) ==
+    LET ne == NonEmptyWorkers(a)
+    IN AsSeq([k \in 1..Len(ne) |-> [wid |-> k - 1, host |-> ne[k].host, clients |-> ne[k].clients]])
+(* Driver.clients_per_worker as a sequence indexed by client id + 1 *)
+ClientsPerWorker(n, plan) ==
+    AsSeq([c \in 1..n |-> LET ks == {k \in 1..Len(plan) : (c - 1) \in SeqToSet(plan[k].clients)}
+                          IN IF ks = {} THEN -1 ELSE plan[CHOOSE k \in ks : TRUE].wid])
+
+SentFlat(sent) == LET G[k \in 0..Len(sent)] == IF k = 0 THEN <<>> ELSE G[k-1] \o sent[k].rows IN G[Len(sent)]
+(* the rows sent to the workers partition the client ids 0..n-1: none lost, none simulated by two workers *)
+RowsPartitionClients(n, sent) == Len(SentFlat(sent)) = n /\ SeqToSet(SentFlat(sent)) = 0..(n - 1)
+(* every worker gets exactly the clients that the assignment a gives to it, on the host it is assigned to *)
+WorkerGetsAssignedClients(a, sent) ==
+    /\ Len(sent) = Len(NonEmptyWorkers(a))
+    /\ {[host |-> sent[k].host, clients |-> sent[k].rows] : k \in 1..Len(sent)} = SeqToSet(NonEmptyWorkers(a))
+(* workers without clients are not created; every created worker is started exactly once *)
+NoWorkerWithoutClients(created, sent) ==
+    /\ \A k \in 1..Len(sent) : sent[k].rows # <<>>
+    /\ \A x, y \in 1..Len(created) : created[x].wid = created[y].wid => x = y
+    /\ \A x \in 1..Len(created) : Cardinality({k \in 1..Len(sent) : sent[k].wid = created[x].wid}) = 1
+    /\ \A k \in 1..Len(sent) : \E x \in 1..Len(created) : created[x].wid = sent[k].wid /\ created[x].host = sent[k].host
+(* the row sent for client c is client c's row of the allocation matrix *)
+SentRowIsClientsRow(sent) == \A k \in 1..Len(sent) : sent[k].rowok
+
+StartClauses == {"RowsPartitionClients", "WorkerGetsAssignedClients", "NoWorkerWithoutClients", "SentRowIsClientsRow"}
+StartHolds(c, n, a, created, sent) ==
+    CASE c = "RowsPartitionClients" -> RowsPartitionClients(n, sent)
+      [] c = "WorkerGetsAssignedClients" -> WorkerGetsAssignedClients(a, sent)
+      [] c = "NoWorkerWithoutClients" -> NoWorkerWithoutClients(created, sent)
+      [] c = "SentRowIsClientsRow" -> SentRowIsClientsRow(sent)
+StartFailing(n, a, created, sent) == {c \in StartClauses : ~StartHolds(c, n, a, created, sent)}
+
+(* what the transcription creates / sends for the assignment a *)
+PlanCreated(plan) == AsSeq([k \in 1..Len(plan) |-> [wid |-> plan[k].wid, host |-> plan[k].host]])
+PlanSent(plan) ==
+    AsSeq([k \in 1..Len(plan) |-> [wid |-> plan[k].wid, host |-> plan[k].host, rows |-> plan[k].clients, rowok |-> TRUE, ctx |-> plan[k].clients]])
 =============================================================================
